@@ -7,7 +7,9 @@ from harness import common, wsdlkit, xmlread
 ID = "C09"
 LEAN_MODULES = ["SudsModel.Props.C09"]
 RULE = ("the full product: status in {None,200,201,202,204,301,400,401,403,404,500,502,503} x body class in {empty, "
-        "normal, fault 1.1, fault 1.2, fault with detail, non-SOAP XML, malformed} x faults x retxml x delivery path "
+        "normal, fault 1.1, fault 1.2, fault with detail, non-SOAP XML (html, an Envelope/Body/Fault in no or in a "
+        "foreign namespace, a prolog and comment before the root), malformed (unclosed tag, white space only, plain "
+        "text, truncated envelope)} x faults x retxml x delivery path "
         "in {transport reply, TransportError with/without body, __inject, RequestContext.process_reply} x binding "
         "style {document wrapped, document bare, rpc}; enumerated exhaustively in both tiers; non-trivial = every cell "
         "except status 200 + normal body; distinct = distinct cells")
@@ -22,7 +24,20 @@ ENV11 = xmlread.ENV11
 ENV12 = xmlread.ENV12
 
 
+# other spellings of a body class ("class#n"): the table goes by the class
+SPELLINGS = {
+    "malformed#1": b" ", "malformed#2": b"\r\n\t", "malformed#3": b"Service Unavailable",
+    "malformed#4": ("<e:Envelope xmlns:e='%s'><e:Body>" % xmlread.ENV11).encode(),
+    "nonSoap#1": b"<Envelope><Body><Fault><faultcode>x</faultcode><faultstring>boom</faultstring></Fault></Body></Envelope>",
+    "nonSoap#2": (b"<e:Envelope xmlns:e='http://www.w3.org/2001/06/soap-envelope'><e:Body><e:Fault><faultcode>x</faultcode>"
+                  b"<faultstring>boom</faultstring></e:Fault></e:Body></e:Envelope>"),
+    "nonSoap#3": b"<?xml version='1.0'?><!-- moved --><error code='7'/>",
+}
+
+
 def body_bytes(kind, style):
+    if kind in SPELLINGS:
+        return SPELLINGS[kind]
     if kind == "empty":
         return b""
     if kind == "malformed":
@@ -110,7 +125,7 @@ def run(ctx):
     for style in ("wrapped", "bare", "rpc"):
         w = make_wsdl(style)
         for faults, retxml in itertools.product((True, False), repeat=2):
-            for body in BODIES:
+            for body in BODIES + sorted(SPELLINGS):
                 data = body_bytes(body, style)
                 for status in STATUSES:
                     paths = []
@@ -149,7 +164,7 @@ def run(ctx):
                         got = outcome_of(fn)
                         meta = {"style": style, "faults": faults, "retxml": retxml, "body": body, "status": status,
                                 "path": pname}
-                        reqs.append({"op": "reply.process", "status": status, "body": body, "faults": faults,
+                        reqs.append({"op": "reply.process", "status": status, "body": body.split("#")[0], "faults": faults,
                                      "retxml": retxml})
                         impls.append(got)
                         metas.append(meta)
@@ -185,7 +200,7 @@ def replay(ctx, payload):
     if meta["status"] is not None:
         inj["status"] = meta["status"]
     got = outcome_of(lambda: c.service.f("x", __inject=inj))
-    ans = ctx.driver.ask([{"op": "reply.process", "status": meta["status"], "body": meta["body"],
+    ans = ctx.driver.ask([{"op": "reply.process", "status": meta["status"], "body": meta["body"].split("#")[0],
                            "faults": meta["faults"], "retxml": meta["retxml"]}])[0]
     return {"fails": ans is not None and got != ans["table"], "got(inject path)": got, "model": ans, "recorded": f}
 
@@ -197,6 +212,6 @@ def witness(ctx, k):
     te = suds.transport.TransportError("err", meta["status"], io.BytesIO(body_bytes(meta["body"], meta["style"])))
     c = wsdlkit.client(w, faults=meta["faults"], retxml=meta["retxml"], transport=wsdlkit.RecordingTransport(reply=te))
     got = outcome_of(lambda: c.service.f("x"))
-    ans = ctx.driver.ask([{"op": "reply.process", "status": meta["status"], "body": meta["body"],
+    ans = ctx.driver.ask([{"op": "reply.process", "status": meta["status"], "body": meta["body"].split("#")[0],
                            "faults": meta["faults"], "retxml": meta["retxml"]}])[0]
     return ans is not None and got != ans["table"]
